@@ -8,7 +8,7 @@
                           FortranCodeUnit.correlate (USE part, should_be_public, filter_public)
                                                             -> use_step / correlate_module
      ford/fortran_project.py  find_used_modules             -> find_module (first module of that name)
-                          get_deps + toposort_flatten       -> toposort (levels; ties in list order)
+                          get_deps + toposort_flatten       -> deps / toposort (levels; ties in list order)
                           Project.correlate (ranklist loop) -> correlate_all (fold in a given order)
 
    FORD keeps four independent dictionaries per scope (procedures, abstract interfaces, types,
@@ -16,11 +16,17 @@
    dictionary.  Names are assumed lower-cased (Corr/C06.v lower-cases the harness input, as FORD
    lower-cases every key).
 
-   Outside the model: submodules, external modules (ExternalModule objects), USE statements inside
-   procedures (FORD shares the host's dictionaries with contained procedures: C07), operator /
-   assignment generic-specs in ONLY lists, how the accessibility of own declarations is computed
-   (C04: d_perm is an input).  A program unit is projected as a module that nobody uses (only its
-   all_* dictionaries are compared). *)
+   Scopes nested in a module (module procedures, internal procedures, interface bodies) with USE
+   statements of their own are carried as [m_nested]: they feed the dependency order (get_deps) and
+   [nested_imports_model] gives what their USE statements add to their dictionaries.
+
+   Outside the model: submodules, external modules (ExternalModule objects), operator / assignment
+   generic-specs in ONLY lists, how the accessibility of own declarations is computed (C04: d_perm
+   is an input), and the sharing of one dictionary object between a module and the procedures it
+   contains (C07): of a nested scope's dictionaries only a lower bound is modelled, and a module
+   with nested scopes has its all_types / all_vars / all_absinterfaces compared as lower bounds.
+   A program unit is projected as a module that nobody uses (only its all_* dictionaries are
+   compared). *)
 From Ford Require Import Base.Str.
 
 Inductive perm := Public | Private | Protected.
